@@ -89,6 +89,11 @@ pub fn cases(ctx: &mut Ctx) {
         ctx.case("m4_transform_point", "generic", &g[0..19], &|| (), &|x| m4(x).transform_point(p3(&x[16..19])));
         ctx.case("m3_concat", "generic", &g[0..18], &|| (), &|x| Transform::<Point3<Xq>>::concat(&m3(x), &m3(&x[9..])));
         ctx.case("m4_concat", "generic", &g[0..32], &|| (), &|x| m4(x).concat(&m4(&x[16..])));
+        // the other instantiation of Transform for Matrix3 (2-D transforms), and the default concat_self of each impl
+        ctx.case("m3_concat_2d", "generic", &g[0..18], &|| (), &|x| Transform::<Point2<Xq>>::concat(&m3(x), &m3(&x[9..])));
+        ctx.case("m3_concat_self", "generic", &g[0..18], &|| (), &|x| { let mut a = m3(x); Transform::<Point3<Xq>>::concat_self(&mut a, &m3(&x[9..])); a });
+        ctx.case("m3_concat_self_2d", "generic", &g[0..18], &|| (), &|x| { let mut a = m3(x); Transform::<Point2<Xq>>::concat_self(&mut a, &m3(&x[9..])); a });
+        ctx.case("m4_concat_self", "generic", &g[0..32], &|| (), &|x| { let mut a = m4(x); a.concat_self(&m4(&x[16..])); a });
         let _ = (b2, b3, b4);
     }
     // affine Matrix4 acting on points (w = 1 exactly) and a Matrix4 sending a point to w = 0 (panic: division by zero)
